@@ -63,7 +63,7 @@ class Lock(object):
 
 # ---------------------------------------------------------------- build
 
-GENERATORS = ['regexes.py', 'tables.py', 'consts.py']
+GENERATORS = ['regexes.py', 'tables.py', 'consts.py', 'maps.py', 'c16.py']
 
 
 def all_generators():
@@ -132,11 +132,11 @@ def make(targets, timeout=3000, keep_going=True):
 
 def build_driver():
     """Extract the model to OCaml and build the driver; returns (ok, log)."""
-    rc, out = make(['Model/Units.vo'], keep_going=False)
+    rc, out = make(['Model/UnitsMap.vo'], keep_going=False)
     if rc != 0:
         return False, out
     stamp = os.path.join(OCAML, '.stamp')
-    units_vo = os.path.join(COQ, 'Model', 'Units.vo')
+    units_vo = os.path.join(COQ, 'Model', 'UnitsMap.vo')
     drv = os.path.join(OCAML, 'driver')
     srcs = [units_vo, os.path.join(OCAML, 'driver.ml'), os.path.join(COQ, 'Extraction.v')]
     if os.path.exists(drv) and os.path.exists(stamp) and \
@@ -205,12 +205,14 @@ class ModelRunner(object):
     def __init__(self):
         self.driver = os.path.join(OCAML, 'driver')
 
-    def run(self, requests, shards=None):
-        """requests: list of (unit, [args as str]) -> list of result strings (latin-1)."""
+    def run(self, requests, shards=None, preload=()):
+        """requests: list of (unit, [args as str]) -> list of result strings (latin-1).
+        preload: list of (name, serialisation) sent to every shard first (`loadxml`)."""
         if not requests:
             return []
         shards = shards or min(NPROC, max(1, len(requests) // 200))
         lines = ['%s %s' % (u, ' '.join(hexarg(a) for a in args)) for (u, args) in requests]
+        pre = ['loadxml %s %s' % (hexarg(n), hexarg(x)) for (n, x) in preload]
         chunks = [lines[i::shards] for i in range(shards)]
         procs = []
         for ch in chunks:
@@ -222,8 +224,8 @@ class ModelRunner(object):
         results = [None] * len(procs)
 
         def feed(i, p, ch):
-            o, _ = p.communicate(('\n'.join(ch) + '\n').encode('ascii'))
-            results[i] = o.decode('ascii').split('\n')
+            o, _ = p.communicate(('\n'.join(pre + ch) + '\n').encode('ascii'))
+            results[i] = o.decode('ascii').split('\n')[len(pre):]
         ths = [threading.Thread(target=feed, args=(i, p, ch)) for i, (p, ch) in enumerate(procs)]
         for t in ths:
             t.start()
